@@ -75,6 +75,7 @@ func (c *formatterClass_) MakeWithMaximum(maximum int) FormatterLike {
 type formatter_ struct {
 	class_   FormatterClassLike
 	depth_   int
+	level_   int // The number of collections currently being formatted.
 	maximum_ int
 	result_  sts.Builder
 }
@@ -100,6 +101,7 @@ func (v *formatter_) FormatValue(value any) (source string) {
 	defer func() {
 		if r := recover(); r != nil {
 			v.depth_ = 0
+			v.level_ = 0
 			v.result_.Reset()
 			panic(r)
 		}
@@ -189,7 +191,16 @@ func (v *formatter_) formatBoolean(boolean bool) {
 }
 
 func (v *formatter_) formatCollection(collection any) {
-	v.formatSequence(collection)
+	// Collections nested deeper than the maximum are elided.  The indentation
+	// depth alone cannot be used for this since it only grows for collections
+	// containing more than one item.
+	v.level_++
+	if v.level_ > v.maximum_ {
+		v.appendString("[...]")
+	} else {
+		v.formatSequence(collection)
+	}
+	v.level_--
 	v.formatContext(collection)
 }
 
